@@ -477,7 +477,7 @@ def run_zip(case, ctx):
 def gen_zip_case(rng):
     k = rng.randint(0, 4)
     vals, forms = [], []
-    base = rng.choice([0, 1, 2, 3, 4])
+    base = rng.choice([0, 1, 2, 3, 4]) if rng.random() > 0.03 else rng.choice([40, 130])       # a few long sequences in every tier
     for _ in range(k):
         r = rng.random()
         if r < 0.3:
